@@ -158,12 +158,14 @@ GAuth ==
         pm(x) == IF sess[x].st \in {"pending", "rejected"} THEN sess[x].hs.method ELSE sess[x].attrs.authmethod
         same == {x \in DOMAIN sess \ {s} : sess[x].attrs.authid = me /\ pm(x) = m}
         anych == {x \in DOMAIN sess \ {s} : pm(x) = m}
-    IN \E kind \in W(<<"valid", "valid", "valid", "replay", "replay", "replay", "wrongkey", "otherch", "garbage", "other">>),
+    IN \E kind \in W(<<"valid", "valid", "valid", "replay", "replay", "replay", "wrongkey", "otherch", "garbage", "other", "empty", "empty">>),
           other \in R({"alice", "bob", "carol"} \ {me}) :
        CASE kind = "replay" /\ same # {} -> \E x \in R(same) : DoAuth(s, [kind |-> "sig", key |-> me, ch |-> x])
          [] kind = "otherch" /\ anych # {} -> \E x \in R(anych) : DoAuth(s, [kind |-> "sig", key |-> sess[x].attrs.authid, ch |-> x])
          [] kind = "wrongkey" -> DoAuth(s, [kind |-> "sig", key |-> other, ch |-> ""])
          [] kind = "garbage"  -> DoAuth(s, [kind |-> "garbage", key |-> "", ch |-> ""])
+         \* a response anybody can make: signed with the empty key / the empty ticket
+         [] kind = "empty"    -> DoAuth(s, [kind |-> "empty", key |-> "", ch |-> ""])
          [] kind = "other"    -> DoAuth(s, [kind |-> "other", key |-> "", ch |-> ""])
          [] OTHER             -> DoAuth(s, [kind |-> "sig", key |-> me, ch |-> ""])
 
